@@ -72,6 +72,26 @@ func queryScenarios(tier string) []*mc.Scenario {
 			Menu: queryMenu,
 		})
 	}
+	// all aliases of a shared resource are released, then one is subscribed
+	// again (must be fetched anew and follow later query events)
+	out = append(out, &mc.Scenario{
+		Name: "query/resubscribe", Props: []string{"C13", "C09"}, Init: queryInit(map[string]string{"a": "n", "b": "n"}), Monitors: allMons(queryMon),
+		Conns: []mc.ConnSpec{
+			conn(latest, req("subscribe.test.q?a", 0), req("subscribe.test.q?b", 0), req("unsubscribe.test.q?a", 1), req("unsubscribe.test.q?b", 1),
+				req("subscribe.test.q?b", 3), req("subscribe.test.q?a", 5)),
+		},
+		Threads: []mc.Thread{{Name: "svc", Ops: []mc.Op{
+			op("mutate+query", 2, func(w *mc.World) {
+				w.Svc.Silent("test.q?n", func(r *mc.SvcRes) { r.M["v"] = `1` })
+				w.Svc.QueryEvent("test.q", "_QE_1")
+			}),
+			op("mutate+query2", 4, func(w *mc.World) {
+				w.Svc.Silent("test.q?n", func(r *mc.SvcRes) { r.M["v"] = `2` })
+				w.Svc.QueryEvent("test.q", "_QE_2")
+			}),
+		}}},
+		Menu: queryMenu,
+	})
 	// both aliasing gets in flight, answered in every order; events and a
 	// second query event arrive while the first is being handled
 	out = append(out, &mc.Scenario{
@@ -162,13 +182,19 @@ func thrScenarios(tier string) []*mc.Scenario {
 					}},
 					op("reset2", 2, func(w *mc.World) { w.Svc.Reset([]string{"test.t1", "test.t2"}, []string{"test.t1"}) }),
 				}}},
-				Bound: map[string]int{"quick": 2, "thorough": -1},
+				Bound: map[string]int{"quick": 1, "thorough": 3},
+			}
+			if n == 1 && fan == 2 {
+				sc.Bound = map[string]int{"quick": 2, "thorough": -1}
 			}
 			var s1, s2 []mc.ClientReq
 			for _, nm := range names[:fan] {
 				s1 = append(s1, req("subscribe."+nm, 0))
 			}
 			s2 = append(s2, req("subscribe."+names[0], 0))
+			// released while throttled requests may be in flight
+			s1 = append(s1, req("unsubscribe."+names[0], 2), req("unsubscribe."+names[1], 2))
+			s2 = append(s2, req("unsubscribe."+names[0], 2))
 			sc.Conns = []mc.ConnSpec{conn(latest, s1...), conn(latest, s2...)}
 			tm := &thrState{}
 			sc.Monitors = func(w *mc.World) []mc.Monitor {
@@ -195,7 +221,10 @@ func thrScenarios(tier string) []*mc.Scenario {
 				w.Svc.Collection("test.col", ref("test.ka"), ref("test.kb"), ref("test.shared"))
 			},
 			Conns: []mc.ConnSpec{conn(latest, req("subscribe.test.root", 0), req("subscribe.test.col", 1))},
-			Bound: map[string]int{"quick": 2, "thorough": -1},
+			Bound: map[string]int{"quick": 1, "thorough": 3},
+		}
+		if n == 1 {
+			sc.Bound = map[string]int{"quick": 2, "thorough": -1}
 		}
 		sc.Monitors = func(w *mc.World) []mc.Monitor {
 			return allMons(func() mc.Monitor {
@@ -226,12 +255,46 @@ func thrScenarios(tier string) []*mc.Scenario {
 	return out
 }
 
+// noResetWindow holds when no reset re-fetch can be under way: the gateway is
+// internally quiet and no get request is unanswered.
+func noResetWindow(w *mc.World) bool {
+	if !w.Quiet() {
+		return false
+	}
+	for _, r := range w.MQ.Pending() {
+		if subjectIs(r, "get.") {
+			return false
+		}
+	}
+	return true
+}
+
+// isRefetch reports whether r is a get request for a resource whose earlier
+// get was answered successfully (a reset re-fetch).
+func isRefetch(w *mc.World, r *mc.Req) bool {
+	if !subjectIs(r, "get.") {
+		return false
+	}
+	for _, o := range w.MQ.Requests() {
+		if o.Seq < r.Seq && o.Subject == r.Subject && o.CPayload == r.CPayload && o.Outcome == "ok" {
+			return true
+		}
+	}
+	return false
+}
+
 // clientsDone holds once every client script is exhausted and answered, so
 // that all later get/access requests are caused by resets.
 func clientsDone(w *mc.World) bool {
 	for _, c := range w.Conns {
-		if c.Remaining() > 0 || len(c.Client.Pending) > 0 {
+		if len(c.Client.Pending) > 0 {
 			return false
+		}
+		// later phases (unsubscribes after the reset) may still be ahead
+		for _, rq := range c.Spec.Script[len(c.Spec.Script)-c.Remaining():] {
+			if rq.Phase <= 0 {
+				return false
+			}
 		}
 	}
 	return true
@@ -336,9 +399,38 @@ func ordScenarios(tier string) []*mc.Scenario {
 		Threads: []mc.Thread{
 			{Name: "stream", Ops: stream("test.x", 6, 1)},
 			{Name: "svc", Ops: []mc.Op{
-				op("reset", 1, func(w *mc.World) { w.Svc.Reset([]string{"test.x"}, nil) }),
+				op("reset", 1, func(w *mc.World) { w.Data["reset"] = true; w.Svc.Reset([]string{"test.x"}, nil) }),
 				op("reset2", 2, func(w *mc.World) { w.Svc.Reset([]string{"test.*"}, nil) }),
 			}},
+		},
+	})
+	// a reset whose re-fetch may fail; the stream events are only emitted
+	// outside of reset windows (events inside a window are dropped by design
+	// and superseded by the re-fetch), so every one of them must be delivered
+	guarded := func(ops []mc.Op) []mc.Op {
+		for i := range ops {
+			ops[i].When = noResetWindow
+		}
+		return ops
+	}
+	out = append(out, &mc.Scenario{
+		Name: "ord/reset-failed", Props: []string{"C03", "C12"}, Init: basicInit, Monitors: allMons(seqMon),
+		Conns: []mc.ConnSpec{
+			conn(latest, req("subscribe.test.x", 0)),
+			conn(latest, req("subscribe.test.m", 0)),
+		},
+		Threads: []mc.Thread{
+			{Name: "stream", Ops: guarded(stream("test.x", 6, 1))},
+			{Name: "svc", Ops: []mc.Op{
+				op("reset", 1, func(w *mc.World) { w.Data["reset"] = true; w.Svc.Reset([]string{"test.x"}, nil) }),
+				op("reset2", 2, func(w *mc.World) { w.Svc.Reset([]string{"test.*"}, nil) }),
+			}},
+		},
+		Menu: func(w *mc.World, r *mc.Req) []mc.Outcome {
+			if isRefetch(w, r) {
+				return []mc.Outcome{w.OK(r), mc.ResErr("system.internalError"), mc.Timeout(), mc.Raw("wrongtype", `{"result":{"collection":[]}}`)}
+			}
+			return nil
 		},
 	})
 	return out
